@@ -20,7 +20,7 @@ BI_BOUNDARY = [0, 1, -1, 2, 10, 2**29 - 1, 2**29, 2**30, 2**31 - 1, 2**31, 2**32
                2**64, 2**64 + 1, 10**20, -10**20, 3**50, -(2**63), -(2**62), 2**100, 10**40 + 7]
 
 ALL_FEATURES = ["bi", "str", "fun", "while", "for", "exit", "list", "arr", "rec", "un", "clos", "gen", "ovl", "brk", "rec_fun",
-                "try", "halt"]
+                "try", "halt", "mac", "dom"]
 
 
 def lit(t, n):
@@ -77,6 +77,11 @@ class ProgGen(object):
         self.in_exit_cond = 0
         self.in_try = 0
         self.exns = ["Ex0", "Ex1", "Ex2"] if "try" in self.feat else []
+        self.macs = []
+        self.in_macro = 0
+        self.cats = []
+        self.doms = []
+        self.dom_ctx = None        # while generating the body of a domain operation: (cat index, max op index, pcat index)
         self.top_loop = 0         # inside a loop body at file level (known finding C01 qualified-literal-in-condition)
         self.top_if = 0           # inside an if-branch at file level (see known finding C01 while-in-if)
         self.in_fun = 0
@@ -203,6 +208,12 @@ class ProgGen(object):
         fs = [i for i, f in enumerate(self.funs) if tkey(f["rt"]) == tkey(t) and f.get("callable", True) and f.get("pure")]
         if fs:
             choices += ["call"] * 3
+        dcs = self.dcall_choices(t) if isinstance(t, str) else []
+        if dcs:
+            choices += ["dcall"] * 2
+        ms = [i for i, m in enumerate(self.macs) if m["rt"] == t] if isinstance(t, str) else []
+        if ms and not self.in_macro and not (self.top_loop and not self.in_fun):
+            choices += ["mac"] * 2
         if t == BI and "bi" in self.feat:
             choices += ["tobi", "pow"]
         all_vars = scope.lookup_all()
@@ -276,6 +287,12 @@ class ProgGen(object):
         if c == "call":
             fi = r.choice(fs)
             return self.call(fi, scope, d)
+        if c == "dcall":
+            dom, op = r.choice(dcs)
+            return {"e": "dcall", "dom": dom, "op": op["name"], "t": t, "args": [self.expr(pt, scope, d - 1) for pt in op["pts"]]}
+        if c == "mac":
+            mi = r.choice(ms)
+            return {"e": "mac", "mi": mi + 1, "t": t, "args": [self.expr(pt, scope, d - 1) for pt in self.macs[mi]["pts"]]}
         if c == "tobi":
             return prim("si.tobi", self.expr(SI, scope, d - 1))
         if c == "pow":
@@ -608,9 +625,105 @@ class ProgGen(object):
             body = {"e": "let", "x": x, "t": t, "v": init, "body": body}
         return body
 
+    def dcall_choices(self, t):
+        out = []
+        if self.dom_ctx is not None:
+            cat, maxop, pcat = self.dom_ctx
+            for i, o in enumerate(self.cats[cat]["ops"]):
+                if i < maxop and o["rt"] == t:
+                    out.append(({"d": "self"}, o))
+            if pcat is not None:
+                for o in self.cats[pcat]["ops"]:
+                    if o["rt"] == t:
+                        out.append(({"d": "param"}, o))
+            return out
+        if self.in_macro:
+            return out
+        for di, dm in enumerate(self.doms):
+            if dm["pcat"]:
+                args = [j for j, a in enumerate(self.doms) if not a["pcat"] and a["cat"] == dm["pcat"]]
+                doms = [{"d": "app", "i": di + 1, "arg": {"d": "base", "i": j + 1}} for j in args]
+            else:
+                doms = [{"d": "base", "i": di + 1}]
+            for o in self.cats[dm["cat"] - 1]["ops"]:
+                if o["rt"] == t:
+                    out += [(dx, o) for dx in doms]
+        return out
+
+    def domains(self):
+        """Feature dom: category A with defaults, two plain domains of A, category B, parametrised domains over A."""
+        r = self.r
+        sc_types = [SI, SI, BOOL] + ([BI] if "bi" in self.feat else [])
+
+        def mkcat(name, nops):
+            ops = []
+            for i in range(nops):
+                ops.append({"name": self.fresh("op"), "pts": [r.choice(sc_types) for _ in range(r.randint(0, 2))],
+                            "rt": r.choice([SI, BOOL] + ([BI] if "bi" in self.feat else []))})
+            return {"name": name, "ops": ops, "defaults": []}
+
+        def body(cat, i, pcat):
+            o = self.cats[cat]["ops"][i]
+            ps = [self.fresh("q") for _ in o["pts"]]
+            sc = Scope()
+            for p_, t in zip(ps, o["pts"]):
+                sc.vars[p_] = (t, False)
+            save = (self.funs, self.macs, self.dom_ctx, self.feat)
+            self.funs, self.macs, self.dom_ctx, self.feat = [], [], (cat, i, pcat), self.feat - {"exit"}
+            self.in_fun += 1
+            b = self.expr(o["rt"], sc, 2)
+            self.in_fun -= 1
+            self.funs, self.macs, self.dom_ctx, self.feat = save
+            return {"name": o["name"], "ps": ps, "pts": o["pts"], "rt": o["rt"], "body": b}
+
+        self.cats.append(mkcat("CatA", r.randint(2, 3)))
+        for i in range(1, len(self.cats[0]["ops"])):
+            if r.random() < 0.6:
+                self.cats[0]["defaults"].append(body(0, i, None))
+        dflt = {o["name"] for o in self.cats[0]["defaults"]}
+        for k in range(2):
+            ops = []
+            for i, o in enumerate(self.cats[0]["ops"]):
+                if o["name"] not in dflt or r.random() < 0.4:
+                    ops.append(body(0, i, None))
+            self.doms.append({"name": "DA%d" % k, "cat": 1, "pcat": 0, "ops": ops})
+        self.cats.append(mkcat("CatB", r.randint(2, 3)))
+        for i in range(1, len(self.cats[1]["ops"])):
+            if r.random() < 0.6:
+                self.cats[1]["defaults"].append(body(1, i, None))
+        dflt = {o["name"] for o in self.cats[1]["defaults"]}
+        for k in range(r.randint(1, 2)):
+            ops = []
+            for i, o in enumerate(self.cats[1]["ops"]):
+                if o["name"] not in dflt or r.random() < 0.4:
+                    ops.append(body(1, i, 0))
+            self.doms.append({"name": "PD%d" % k, "cat": 2, "pcat": 1, "ops": ops})
+
+    def macro(self):
+        """A macro m(p1, .., pn) ==> body over scalar parameters; the body mentions only its parameters."""
+        r = self.r
+        pts = [r.choice([SI, SI, BOOL] + ([BI] if "bi" in self.feat else [])) for _ in range(r.randint(1, 3))]
+        ps = [self.fresh("m") for _ in pts]
+        rt = r.choice([SI, BOOL] + ([BI] if "bi" in self.feat else []))
+        sc = Scope()
+        for p_, t in zip(ps, pts):
+            sc.vars[p_] = (t, False)
+        save = (self.funs, self.feat)
+        self.funs, self.feat = [], self.feat - {"exit"}      # no calls; keep the body a plain expression
+        self.in_macro += 1
+        body = self.expr(rt, sc, 2)
+        self.in_macro -= 1
+        self.funs, self.feat = save
+        self.macs.append({"name": self.fresh("mac"), "ps": ps, "pts": pts, "rt": rt, "body": body})
+
     def program(self, pid=None):
         r = self.r
         nforms = self.size
+        if "mac" in self.feat:
+            for _ in range(r.randint(1, 2)):
+                self.macro()
+        if "dom" in self.feat:
+            self.domains()
         for _ in range(r.randint(1, 3)):
             self.global_var()
         for _ in range(nforms):
@@ -639,7 +752,7 @@ class ProgGen(object):
                 order.append(["t", len(top)])
                 top.append(it)
         return {"id": pid or ("g%d" % self.seed), "funs": self.funs, "top": top, "order": order, "recs": self.recs, "exns": self.exns,
-                "uns": self.uns, "feat": sorted(self.feat), "seed": self.seed}
+                "uns": self.uns, "macs": self.macs, "cats": self.cats, "doms": self.doms, "feat": sorted(self.feat), "seed": self.seed}
 
     def overload_groups(self):
         """Feature ovl: several functions share one Aldor name when their parameter type lists differ pairwise
